@@ -60,10 +60,12 @@ def render_class(name, c, names):
     style = int(name[1:name.index("_")]) % 3
     par, opar = [("", ""), ("int x", "const int x"), ("", "")][style]
     osfx = ["override", "override", "noexcept override"][style]
+    # style 2: every class after the first declares f noexcept (an overrider may be stricter, never looser)
+    nx = " noexcept" if (style == 2 and not name.endswith("_C1")) else ""
     if c["vf"] == "virt":
-        L.append("  virtual void f(%s);" % par)
+        L.append("  virtual void f(%s)%s;" % (par, nx))
     elif c["vf"] == "pure":
-        L.append("  virtual void f(%s) = 0;" % par)
+        L.append("  virtual void f(%s)%s = 0;" % (par, nx))
     elif c["vf"] == "over":
         L.append("  void f(%s) %s;" % (opar, osfx))
     elif c["vf"] == "overc":
